@@ -210,10 +210,19 @@ func vh_C12_link(a []int) {
 	vReach("C12.end")
 }
 
-// vh_C12_key: hexadecimal key ids on bytes — a = {key id length}
+// vh_C12_key: hexadecimal key ids on bytes — a = {#ASCII bytes, 1: followed by one arbitrary two-byte UTF-8
+// character and one more ASCII byte (a non-ASCII character is never a hexadecimal digit, whatever its code
+// point looks like modulo 256)}
 func vh_C12_key(a []int) {
 	id := vBytes("keyid", a[0])
 	vhASCII(id)
+	if len(a) > 1 && a[1] == 1 {
+		t := vBytes("twobyte", 2)
+		vAssume(vAnd(vAnd(vLeByte(0xc2, t[0]), vLeByte(t[0], 0xdf)), vAnd(vLeByte(0x80, t[1]), vLeByte(t[1], 0xbf))))
+		last := vBytes("last", 1)
+		vhASCII(last)
+		id = id + t + last
+	}
 	k := Key{KeyID: id, KeyType: "ed25519", Scheme: "ed25519", KeyVal: KeyVal{Public: "PUB"}}
 	err := ValidateMetablock(Metablock{Signed: Layout{Type: "layout", Expires: "2030-01-01T00:00:00Z", Keys: map[string]Key{id: k}}})
 	vObserve("key", err == nil)
